@@ -151,7 +151,15 @@ def check(prog, rep, tier):
             stored = rf(e.value)
             wantv = canon(("bin", sign, ("sub", BINS, addr, 0), ("p", "num_els")))
             lim = C(2**31 - 1) if sign == "+" else C(-2**31)
-            odd = [x for x in leaves(stored) if x not in (wantv, lim)]
+            def capped_amount(x):
+                """cell +/- min(num_els, K) with a constant K of at least 2^32 - 1: such a cap cannot be seen through the 32-bit clamp
+                (an amount above K drives the cell to its limit either way)"""
+                for K_ in [n_ for n_ in walk(x) if n_[0] == "c" and isinstance(n_[1], int) and not isinstance(n_[1], bool) and n_[1] >= 2**32 - 1]:
+                    for capped in (("call", ("g", "min"), (("p", "num_els"), K_), ()), ("call", ("g", "min"), (K_, ("p", "num_els")), ())):
+                        if x == canon(("bin", sign, ("sub", BINS, addr, 0), capped)):
+                            return True
+                return False
+            odd = [x for x in leaves(stored) if x not in (wantv, lim) and not capped_amount(x)]
             if odd:
                 rep.bad("C02.one-store-per-row", f"{CTX}.{n}", f"store {nshow(odd[0])}",
                         f"the cell receives {nshow(odd[0])}; expected cell {sign} num_els or the clamp constant", e.where())
